@@ -230,10 +230,18 @@ func mapRangeOK(f *ssa.Function, rg *ssa.Range) (bool, string) {
 	var sorts []ssa.Instruction
 	for _, cl := range AllCalls(f, false) {
 		n := calleeName(cl)
-		if n != "sort.Strings" && n != "sort.Slice" && n != "sort.SliceStable" && n != "sort.Ints" {
+		if n != "sort.Strings" && n != "sort.Slice" && n != "sort.SliceStable" && n != "sort.Ints" && n != "sort.Sort" && n != "sort.Stable" {
 			continue
 		}
 		a := sliceOfIface(arg(cl, 0))
+		if n == "sort.Sort" || n == "sort.Stable" {
+			// only the total orders of package sort's own slice types are accepted
+			t := a.Type().String()
+			if t != "sort.StringSlice" && t != "sort.IntSlice" {
+				continue
+			}
+			a = strip(a)
+		}
 		for _, ap := range appended {
 			if sharesRoots(a, ap) || cellOf(a) != nil && cellOf(a) == ap {
 				if n == "sort.Slice" || n == "sort.SliceStable" {
